@@ -55,8 +55,8 @@ Example slice_examples :
   /\ slice_transform 4 (Some 9) (lit "abcd") = Ok []
   /\ slice_transform 5 (Some 2) (lit "abcd") = Ok []
   /\ slice_transform 1 None (lit "abcd") = Ok (lit "bcd")
-  /\ slice_transform 3 (Some 2) (lit "abcd") = Panic SITE_SLICE_ORDER
-  /\ slice_transform 0 (Some 2) [97;195;169] = Panic SITE_SLICE_BOUNDARY
+  /\ slice_transform 3 (Some 2) (lit "abcd") = Ok []                (* str[3..2] panicked before the repair db79cd0 *)
+  /\ slice_transform 0 (Some 2) [97;195;169] = Ok []                  (* so did a bound inside a character *)
   /\ slice_transform 1 (Some 3) [97;195;169] = Ok [195;169].
 Proof. repeat split; vm_compute; reflexivity. Qed.
 
@@ -119,7 +119,7 @@ Proof.
 Qed.
 
 (* T5. Transformer chains apply left to right (a fold; a transformer the decoder rejects is skipped; a panic stops
-   the chain), and Slice: what it returns, out-of-range bounds, exactly when it panics. *)
+   the chain), and Slice: it never panics, what it returns, out-of-range bounds, the degenerate cases. *)
 Theorem C10_transform_chain : forall (O : oracle) (ts1 ts2 : list transformer) (v : str),
   apply_chain O (ts1 ++ ts2) v = obind (apply_chain O ts1 v) (apply_chain O ts2)
   /\ apply_chain O ts1 v = fold_left (fun acc t => obind acc (chain_step O t)) ts1 (Ok v).
@@ -128,19 +128,20 @@ Proof. intros O ts1 ts2 v. split; [apply chain_app|apply chain_fold]. Qed.
 Theorem C10_slice : forall (from : N) (to : option N) (s : str),
   let len := len_N s in
   let to' := N.min (match to with Some t => t | None => len end) len in
-  (forall r, slice_transform from to s = Ok r ->
-     (len < from /\ r = []) \/ (from <= to' /\ r = firstn (N.to_nat (to' - from)) (skipn (N.to_nat from) s) /\ len_N r = to' - from))
+  (exists r, slice_transform from to s = Ok r)
+  /\ (forall r, slice_transform from to s = Ok r ->
+     r = [] \/ (from <= to' /\ r = firstn (N.to_nat (to' - from)) (skipn (N.to_nat from) s) /\ len_N r = to' - from))
   /\ (len < from -> slice_transform from to s = Ok [])
   /\ (forall t, to = Some t -> len <= t -> slice_transform from to s = slice_transform from None s)
-  /\ ((exists site, slice_transform from to s = Panic site)
-      <-> from <= len /\ (to' < from \/ is_char_boundary s from && is_char_boundary s to' = false))
+  /\ (from <= len /\ (to' < from \/ is_char_boundary s from && is_char_boundary s to' = false) -> slice_transform from to s = Ok [])
   /\ (all_ascii s = true -> from <= to' -> slice_transform from to s = Ok (firstn (N.to_nat (to' - from)) (skipn (N.to_nat from) s))).
 Proof.
-  intros from to s. cbn zeta. split; [|split; [|split; [|split]]].
+  intros from to s. cbn zeta. split; [|split; [|split; [|split; [|split]]]].
+  - apply slice_total.
   - intros r. apply slice_result.
   - apply slice_from_beyond.
   - intros t -> H. apply slice_to_clamped. exact H.
-  - apply (slice_panics_iff from to s).
+  - apply (slice_degenerate from to s).
   - apply slice_ascii.
 Qed.
 
